@@ -187,6 +187,7 @@ type verdict struct {
 	signers          map[int]bool // distinct verifying members (key ordinals)
 	endorsers        map[int]bool // distinct keys with a verifying entry, members or not
 	n                int          // distinct members (by key bytes)
+	tc               int          // TrustCount of the frame's set (0 if it cannot be built)
 }
 
 func (rn *runner) judge(r *net.FastForwardResponse) verdict {
@@ -199,6 +200,10 @@ func (rn *runner) judge(r *net.FastForwardResponse) verdict {
 		defer func() { recover() }()
 		ph, err := peers.NewPeerSet(f.Peers).Hash()
 		v.peersOK = err == nil && string(ph) == string(b.Body.PeersHash)
+	}()
+	func() {
+		defer func() { recover() }()
+		v.tc = peers.NewPeerSet(f.Peers).TrustCount()
 	}()
 	members := map[int]bool{}
 	for _, p := range f.Peers {
@@ -254,6 +259,17 @@ func (rn *runner) oracleAccept(where, kind string, v verdict, known map[int]bool
 	if dup {
 		rn.violation("C12", "duplicate-signer-counted", det)
 	}
+	// C14 (rule level, theorem C14_known_quorum): more than TrustCount(frame set) DISTINCT members that
+	// the victim already knows must have signed
+	knownSigners := 0
+	for s := range v.signers {
+		if known[s] {
+			knownSigners++
+		}
+	}
+	if knownSigners <= v.tc && knownSigners > 0 {
+		rn.violation("C14", "accepted-without-known-quorum", fmt.Sprintf("%s known-signers=%d trustcount=%d", det, knownSigners, v.tc))
+	}
 	// C14: every key that endorses the block (verifying signature) is outside every known set
 	strangers := len(v.endorsers) > 0
 	for s := range v.endorsers {
@@ -308,6 +324,29 @@ func (rn *runner) runCore(v *victim, vkind, mkind string, r *net.FastForwardResp
 	}
 	fmt.Fprintf(rn.out, "FF %d %d %s %s %d | R %d | K %s => %s %d %s\n", rn.hid, rn.cid, vkind, mkind, rid, reset, knownStr,
 		class, b2i(d0 == d1), post)
+	if mkind == "valid" {
+		// liveness of the repaired rule (theorem C14_honest_accept_iff): the honest response is adopted
+		// exactly when more than TrustCount of its signers are known to the victim
+		ks := 0
+		for sg := range verdict.signers {
+			if known[sg] {
+				ks++
+			}
+		}
+		tag := fmt.Sprintf("honest-response:%s:known-signers", vkind)
+		switch {
+		case ks > verdict.tc && class == "ok":
+			rn.stats[tag+">trustcount:adopted"]++
+		case ks > verdict.tc:
+			rn.stats[tag+">trustcount:REFUSED"]++
+			rn.violation("C12", "honest-response-refused-with-known-quorum",
+				fmt.Sprintf("kind=valid at=%s class=%s signers=%d known-signers=%d trustcount=%d", vkind, class, len(verdict.signers), ks, verdict.tc))
+		case class == "ok":
+			rn.stats[tag+"<=trustcount:adopted"]++
+		default:
+			rn.stats[tag+"<=trustcount:refused"]++
+		}
+	}
 	rn.stats["class:"+class]++
 	rn.stats["group:"+strings.SplitN(mkind, ".", 2)[0]+":"+class]++
 	if class == "ok" {
@@ -319,14 +358,7 @@ func (rn *runner) runCore(v *victim, vkind, mkind string, r *net.FastForwardResp
 		if class == "panic" {
 			rn.violation("C12", "panic-on-malformed-response", fmt.Sprintf("kind=%s at=%s err=%q", mkind, vkind, trunc(err.Error(), 80)))
 		}
-		knownSigner := false
-		for sg := range verdict.signers {
-			knownSigner = knownSigner || known[sg]
-		}
-		if mkind == "valid" && knownSigner {
-			// not demanded by C12/C14 (liveness); counted, and compared with the model like every case
-			rn.stats["valid-refused-although-a-signer-is-known:"+vkind]++
-		}
+
 	}
 	return class != "ok" && d0 == d1
 }
